@@ -2,6 +2,7 @@ use crate::core::driver::Prop;
 
 pub mod c01;
 pub mod c02;
+pub mod c03;
 pub mod c04;
 pub mod c05;
 pub mod c06;
@@ -22,7 +23,7 @@ pub mod c15;
 pub mod c16;
 
 pub fn all() -> Vec<Box<dyn Prop>> {
-    vec![Box::new(c01::C01), Box::new(c02::C02), Box::new(c04::C04), Box::new(c05::C05), Box::new(c06::C06), Box::new(c07::C07), Box::new(c17::C17), Box::new(c18::C18), Box::new(c09::C09), Box::new(c10::C10), Box::new(c11::C11), Box::new(c14::C14), Box::new(c15::C15), Box::new(c16::C16), Box::new(c08::C08), Box::new(c13::C13), Box::new(c12::C12), Box::new(c20::C20), Box::new(c19::C19)]
+    vec![Box::new(c01::C01), Box::new(c02::C02), Box::new(c04::C04), Box::new(c05::C05), Box::new(c06::C06), Box::new(c07::C07), Box::new(c17::C17), Box::new(c18::C18), Box::new(c09::C09), Box::new(c10::C10), Box::new(c11::C11), Box::new(c14::C14), Box::new(c15::C15), Box::new(c16::C16), Box::new(c08::C08), Box::new(c13::C13), Box::new(c12::C12), Box::new(c20::C20), Box::new(c19::C19), Box::new(c03::C03)]
 }
 
 /// Developer utilities (`verif dbg <what> ...`).
